@@ -12,11 +12,12 @@ type Environment struct {
 	store     map[string]Object
 	Aliases   map[string]string
 	toCompact []Object
+	removed   map[string]bool
 }
 
 // NewEnvironment creates a new enviroment
 func NewEnvironment() *Environment {
-	return &Environment{store: map[string]Object{}, Aliases: map[string]string{}, toCompact: []Object{}}
+	return &Environment{store: map[string]Object{}, Aliases: map[string]string{}, toCompact: []Object{}, removed: map[string]bool{}}
 }
 
 // AddAttributes adds the types attributes to the environment
@@ -125,6 +126,7 @@ func (e *Environment) Set(name string, val Object) Object {
 	}
 
 	e.store[n] = val
+	delete(e.removed, n)
 
 	return val
 }
@@ -140,6 +142,7 @@ func (e *Environment) Remove(name string) {
 	_, ok := e.store[n]
 	if ok {
 		delete(e.store, n)
+		e.removed[n] = true
 
 		return
 	}
@@ -164,6 +167,11 @@ func (e *Environment) Compact() {
 
 // Apply assigns the environment field to the item
 func (e *Environment) Apply(item map[string]*types.Item, aliases map[string]string, exclude map[string]bool) {
+	// an attribute removed from the environment is removed from the item
+	for k := range e.removed {
+		delete(item, k)
+	}
+
 	for k, v := range e.store {
 		if _, ok := exclude[k]; ok {
 			continue
